@@ -312,8 +312,23 @@ func oracleC02AtFilter(h *HistSys, hist []Op, w *world.World, obs Obs) *Finding 
 
 // stickyFinal (concurrent part): with a reserving policy and replicas 1, every binding of the identity has the same IP.
 func oracleC02Concurrent(w *world.World, s *coop.Sched, final bool) *Finding {
+	if v, ok := w.MustKeep["violation"]; ok {
+		return &Finding{Clause: "reserve-of-immutable-deployment-lost", Detail: v}
+	}
 	first := map[string]string{}
 	for _, b := range w.Bindings {
+		if allowed, ok := w.MustKeep["replacement:"+b.PodKey]; ok {
+			// a replacement pod of a deployment must take one of the IPs the pods it replaces held
+			for _, ip := range b.IPs {
+				if !strings.Contains(","+allowed+",", ","+ip+",") {
+					return &Finding{Clause: "replacement-pod-got-fresh-ip", Detail: fmt.Sprintf("replacement pod %s bound with %s, the pods it replaces held [%s] of which one had to stay in reserve", b.PodKey, ip, allowed)}
+				}
+			}
+			continue
+		}
+		if _, multi := w.MustKeep["replacement:ns/d-r1-w"]; multi {
+			continue // several pods of the deployment hold different IPs by construction
+		}
 		id := b.PodKey
 		if strings.HasPrefix(b.PodKey, "ns/d-") {
 			id = "deployment-d"
@@ -618,6 +633,7 @@ func c02Concurrent(tier string) []*Scenario {
 		}
 		out = append(out, s)
 	}
+	out = append(out, famTwoDeletes(false, b)...)
 	return out
 }
 
